@@ -118,13 +118,19 @@ CLAIMED = {
     technique='contract-based deductive verification (Python-AST VCs on a function slice and a generator) + bounded schema contracts'),
   'C04': dict(
     category='other',
-    text='Functors.ArgsOf (= reachability closure), CallKey (equal keys iff equal relevant bindings) and the make order '
+    text='Proved from the current source (37 obligations): the make-order loop of Functors.MakeAll (slice) calls Make for '
+         'every pending @Make exactly once, an application whose applicant or bound value is itself a pending target only '
+         'after that target, and leaves nothing pending on a normal exit (ghost log of the Make calls). Bounded: '
+         'Functors.ArgsOf (= reachability closure), CallKey (equal keys iff equal relevant bindings) and the make order '
          '(CallFunctor only after applicant, its transitive arguments and bound values are made) as contracts executed on '
          'all small dependency graphs / all calls of the catalogue; functor schemas (chains, two arguments, functor of '
          'functor result, constants, equal and different bindings) against hand-substituted specs.',
     design_ref='DESIGN.md section 4, C04',
-    note='bounded; no deductive obligations (tree-rewriting code is outside the VC generator\'s subset).',
-    technique='contracts on the real functions executed natively over exhaustive small domains (bounded stand-in)'),
+    note='the substitution itself (CallFunctor: cloning and renaming of rule trees) is bounded only -- tree-rewriting code is '
+         'outside the VC generator\'s subset; assumed in the proof: ParseMakeInstruction returns its first argument as name '
+         '(pure), Make records the call and keeps the keys of args_of, sorted() permutes.',
+    technique='contract-based deductive verification of the make-order loop (Python-AST VCs, z3/cvc5) + contracts on the real '
+              'functions executed natively over exhaustive small domains (bounded stand-in)'),
   'C09': dict(
     category='other',
     text='Dialect interface conformance decided exhaustively (every dialect method x every call site arity, every '
